@@ -2,6 +2,7 @@
    of the result for curves; Newton accuracy and the floating-point round trip are swept - see findings F5, F11). *)
 From Coq Require Import List Arith Reals.
 From BZ Require Import Base.Ops Base.RInst Model.Curve Theory.CurveEvalExtra Theory.LocateTheory.
+From BZ Require Import Model.Triangle Theory.SignSoundR Theory.TriLocate.
 Import ListNotations.
 
 (* a point that IS on the curve (exact arithmetic) is never pruned: at every depth of the bisection it lies in the
@@ -20,3 +21,13 @@ Theorem C10_restriction_invariant_right : forall orig c a b,
   (2 <= length c)%nat -> Inv orig c a b -> Inv orig (subdivide_right ROps c) ((a + b) / 2) b.
 Proof. exact Inv_right. Qed.
 Print Assumptions C10_restriction_invariant_right.
+
+(* triangles: a point that IS on the triangle (exact arithmetic, barycentric parameters in the closed reference triangle) is never
+   pruned by the subdivision of locate_point: at every depth one of the four quarters of the surviving candidate has the point
+   inside the closed bounding box of its control net, in every coordinate; every degree, every dimension.
+   (The quarters are the blossom sub-nets of C09, generic form; the tables of degrees 1-4 equal them, Theory/TriTables.v.) *)
+Theorem C10_triangle_subdivision_never_loses_a_point_of_the_triangle : forall n d rows l1 l2 l3,
+  Forall (fun v => List.length v = tri_size d) rows -> in_tri l1 l2 l3 ->
+  tri_survives n d rows (tri_point d rows l1 l2 l3).
+Proof. exact tri_subdivision_never_prunes_the_point. Qed.
+Print Assumptions C10_triangle_subdivision_never_loses_a_point_of_the_triangle.
